@@ -64,6 +64,11 @@ def _match(p, t, binding, vcache):
             return _match(a, z3.simplify(t - b), binding, vcache)
         if z3.is_var(b) and z3.is_int_value(a):
             return _match(b, z3.simplify(t - a), binding, vcache)
+        # k + g  /  g + k  with a ground (symbolic) offset g:  k := t - g
+        if z3.is_var(a) and not _has_var(b, vcache):
+            return _match(a, z3.simplify(t - b), binding, vcache)
+        if z3.is_var(b) and not _has_var(a, vcache):
+            return _match(b, z3.simplify(t - a), binding, vcache)
     if p.decl().kind() != t.decl().kind() or p.num_args() != t.num_args():
         return False
     if p.decl().kind() == z3.Z3_OP_UNINTERPRETED and p.decl().name() != t.decl().name():
@@ -82,6 +87,68 @@ class Instantiator:
         self.done = set()          # (quantifier id, binding key)
         self.count = 0
         self.fresh = 0
+        self.alias = {}            # array term id -> arrays it is equated with / built from (A = store(B, ..), ite)
+        self.auto_pats = {}
+
+    def note_array_equalities(self, e):
+        """ground equalities between arrays (at any position): a select on one side is also a candidate index for
+        triggers on the other side (extra instances are always sound)"""
+        stack, seen = [e], set()
+        while stack:
+            x = stack.pop()
+            if x.get_id() in seen:
+                continue
+            seen.add(x.get_id())
+            if z3.is_quantifier(x):
+                continue
+            if z3.is_app(x):
+                if x.decl().kind() == z3.Z3_OP_EQ and z3.is_array(x.arg(0)) and not _has_var(x, self.vcache):
+                    a, b = x.arg(0), x.arg(1)
+                    self.alias.setdefault(a.get_id(), []).append(b)
+                    self.alias.setdefault(b.get_id(), []).append(a)
+                stack.extend(x.children())
+
+    def related_arrays(self, a, depth=3):
+        out, todo, seen = [], [(a, 0)], {a.get_id()}
+        while todo:
+            x, d = todo.pop()
+            nxt = list(self.alias.get(x.get_id(), ()))
+            if z3.is_app(x):
+                k = x.decl().kind()
+                if k == z3.Z3_OP_STORE:
+                    nxt.append(x.arg(0))
+                elif k == z3.Z3_OP_ITE:
+                    nxt += [x.arg(1), x.arg(2)]
+            for y in nxt:
+                if y.get_id() not in seen and d < depth:
+                    seen.add(y.get_id())
+                    out.append(y)
+                    todo.append((y, d + 1))
+        return out
+
+    def auto_patterns(self, q):
+        """a quantifier without explicit triggers: every select on a ground array whose index mentions a bound variable"""
+        i = q.get_id()
+        if i in self.auto_pats:
+            return self.auto_pats[i]
+        pats, stack, seen = [], [q.body()], set()
+        while stack:
+            x = stack.pop()
+            if x.get_id() in seen:
+                continue
+            seen.add(x.get_id())
+            if z3.is_quantifier(x):
+                continue
+            if z3.is_app(x):
+                if x.decl().kind() == z3.Z3_OP_SELECT and not _has_var(x.arg(0), self.vcache) and _has_var(x.arg(1), self.vcache):
+                    idx = x.arg(1)
+                    ok = z3.is_var(idx) or (z3.is_add(idx) and idx.num_args() == 2 and
+                                            (z3.is_var(idx.arg(0)) or z3.is_var(idx.arg(1))))
+                    if ok:
+                        pats.append([x])
+                stack.extend(x.children())
+        self.auto_pats[i] = pats
+        return pats
 
     def collect(self, e):
         stack = [e]
@@ -99,6 +166,11 @@ class Instantiator:
                     k = x.decl().kind()
                     if k == z3.Z3_OP_SELECT:
                         self.index.setdefault(("sel", x.arg(0).get_id()), []).append(x)
+                        if z3.is_int(x.arg(1)) and (x.arg(0).get_id() in self.alias or
+                                                    x.arg(0).decl().kind() in (z3.Z3_OP_STORE, z3.Z3_OP_ITE)):
+                            for b in self.related_arrays(x.arg(0)):
+                                if b.sort() == x.arg(0).sort():
+                                    self.index.setdefault(("sel", b.get_id()), []).append(z3.Select(b, x.arg(1)))
                     elif k == z3.Z3_OP_UNINTERPRETED:
                         self.index.setdefault(("uf", x.decl().name()), []).append(x)
                 stack.extend(x.children())
@@ -135,6 +207,10 @@ class Instantiator:
         for i in range(q.num_patterns()):
             pt = q.pattern(i)
             pats.append([pt.arg(j) for j in range(pt.num_args())])
+        if nv == 1:
+            # besides the explicit triggers: every select of the body whose index is the bound variable (+ offset)
+            have = {mp[0].get_id() for mp in pats if len(mp) == 1}
+            pats = pats + [mp for mp in self.auto_patterns(q) if mp[0].get_id() not in have]
         if not pats:
             return None
         for mp in pats:
@@ -231,6 +307,8 @@ def instantiate(hyps, goal, rounds=4):
         _walk_positive_foralls(neg_goal, +1, [], found)
         quants.extend(found)
     work = list(ground) + [neg_goal]
+    for w in work:
+        inst.note_array_equalities(w)
     for w in work:
         inst.collect(w)
     out = list(work)
